@@ -403,7 +403,7 @@ B[
 def Result_AsFloat64 : Func := { name := "Result.AsFloat64", recv := "r", params := [], body :=
 B[
   (.ifS B[] (.bin "==" (.sel (.var "r") "value") (.var "nil")) B[
-    (.ret E[(.unsupported "0.0"), (.var "false")])] B[]),
+    (.ret E[(.call "float.lit" E[(.str "0.0")]), (.var "false")])] B[]),
   (.typeSwitch "v" (.sel (.var "r") "value") (Cases.ofList [
     ((.lit "types" E[(.var "float64")]), B[
       (.ret E[(.var "v"), (.var "true")])]),
@@ -430,7 +430,7 @@ B[
     ((.lit "types" E[(.var "uint64")]), B[
       (.ret E[(.conv "float64" (.var "v")), (.var "true")])]),
     ((.var "default"), B[
-      (.ret E[(.unsupported "0.0"), (.var "false")])])]))] }
+      (.ret E[(.call "float.lit" E[(.str "0.0")]), (.var "false")])])]))] }
 
 def Result_AsFloat64Or : Func := { name := "Result.AsFloat64Or", recv := "r", params := ["defaultVal"], body :=
 B[
@@ -720,7 +720,7 @@ B[
 
 def SharedStore_GetFloat64 : Func := { name := "SharedStore.GetFloat64", recv := "s", params := ["key"], body :=
 B[
-  (.ret E[(.mcall (.var "s") "GetFloat64Or" E[(.var "key"), (.unsupported "0.0")])])] }
+  (.ret E[(.mcall (.var "s") "GetFloat64Or" E[(.var "key"), (.call "float.lit" E[(.str "0.0")])])])] }
 
 def SharedStore_GetFloat64Or : Func := { name := "SharedStore.GetFloat64Or", recv := "s", params := ["key", "defaultVal"], body :=
 B[
